@@ -270,6 +270,11 @@ def run(tier):
     compressor(prog, res)
     witnesses(prog, res)
     t4_common.run(prog, res, "T4.error-discipline", ["contrib/seekable_format/"], 12)
+    # frozen guards of the seekable format (all error codes)
+    import json as _json, os as _os
+    _inv = _json.load(open(_os.path.join(_os.path.dirname(_os.path.abspath(__file__)), "inv", "C20.json")))
+    guards.check_inventory(prog, res, "T8.frozen-guards(seekable)", _inv)
+    res.need("T8.frozen-guards(seekable)", 20)
     return res.finish(
         explanation="Frame-index accessors all refuse index >= tableLen before subscripting (the table has tableLen+1 "
                     "cells); allocation, fill loop and tableLen agree; loading is cut by the magic / reserved-bit / size "
